@@ -47,7 +47,8 @@ REQUIRED = ["ctl_runs", "ctl_deferred_flushes", "ctl_partial_writes",
             "ctl_eagain", "ctl_fatal", "ctl_streams_compared",
             "iow_cases", "iow_partial_writes", "iow_eagain", "iow_fatal",
             "iow_fast_sends", "iow_streams_compared",
-            "iow_connect_with_bytes_already_queued"]
+            "iow_connect_with_bytes_already_queued", "ctl_message_objects_sent",
+            "iow_sends_on_a_closed_worker"]
 TIMEOUT = {"quick": 1500, "thorough": 10800}
 
 
@@ -208,8 +209,9 @@ def run_ctl (scn, schedule, policy, seed):
       obs["cons"].append(con)
       # the hello that Connection.__init__ sends is message 0 of the stream
       def spy (data, con=con, ci=ci):
-        if type(data) is not bytes: data = data.pack()
-        obs["expected"][ci] += data
+        # (what is handed on is what the constructor handed over: a message
+        #  object, which send() has to pack itself)
+        obs["expected"][ci] += data if type(data) is bytes else data.pack()
         return of_01.Connection.send(con, data)
       con.send = spy
       of_01.Connection.__init__(con, s)
@@ -225,10 +227,17 @@ def run_ctl (scn, schedule, policy, seed):
         ci = op[1]; con = obs["cons"][ci]
         counts[ci] += 1
         data = msg_bytes(ci, counts[ci], op[2])
+        payload = data
+        if (ci + counts[ci]) % 3 == 0 and op[2] < 60000:
+          # the usual call shape: a message object, not bytes
+          import pox.openflow.libopenflow_01 as of
+          payload = of.ofp_echo_request(xid=counts[ci], body=data)
+          data = payload.pack()
+          obs["objects_sent"] = obs.get("objects_sent", 0) + 1
         if not con.disconnected:
           obs["expected"][ci] += data
         try:
-          con.send(data)
+          con.send(payload)
         except ilv.RunAborted:
           raise
         except BaseException:
@@ -335,6 +344,10 @@ def judge_ctl (scn, obs, fire, rep):
       if not con.disconnected:
         fire("connection not reported closed exactly once",
              "connection %d not marked disconnected" % ci); return None
+      if obs["nexus"].disconnects.count(con.dpid) < 1:
+        # (reported closed to the nexus that lists live connections, too)
+        fire("closed connection stays registered with the nexus",
+             "connection %d (dpid %d)" % (ci, con.dpid)); return None
     else:
       if downs_n or downs_c or con.disconnected:
         fire("healthy connection reported closed",
@@ -368,6 +381,7 @@ def do_ctl (scn, schedule, policy, seed, rep):
     rep.inconclusive_because("wall-clock watchdog in a C20 schedule")
     return None
   rep.count("ctl_runs")
+  if obs.get("objects_sent"): rep.count("ctl_message_objects_sent", obs["objects_sent"])
   ds = obs["ds"]
   nd = sum(1 for l in obs["callers"] if ds is not None and l == ds.lid)
   if nd:
@@ -384,7 +398,7 @@ def do_ctl (scn, schedule, policy, seed, rep):
   return obs
 
 
-ALPHA = ["all", 3, "half", "eagain", "fatal"]
+ALPHA = ["all", 3, "half", "eagain", "fatal", 0]
 
 
 def concrete_script (script, sizes):
@@ -429,10 +443,11 @@ def gen_ctl_random (rng, n):
       for _ in range(rng.randrange(0, 8)):
         r = rng.random()
         if r < 0.30: sc.append("all")
-        elif r < 0.62: sc.append(rng.choice([1, 3, 7, 100, 2500, 4095, 4096, 5000]))
+        elif r < 0.62: sc.append(rng.choice([1, 3, 7, 100, 2500, 4095, 4096, 5000, 0, 0]))
         elif r < 0.80: sc.append("eagain")
         elif r < 0.93: sc.append("eagain_blocked")
-        else: sc.append("fatal")
+        else: sc.append(rng.choice(["fatal", "fatal", "fatal:EPIPE", "fatal:ETIMEDOUT",
+                                    "fatal:EHOSTUNREACH", "fatal:ENOTCONN"]))
       scripts.append(sc)
     yield dict(ncons=ncons, program=prog, scripts=scripts)
 
@@ -446,6 +461,13 @@ CTL_DFS = [
   dict(ncons=2, program=[["send", 0, 20], ["send", 1, 30], ["send", 0, 9],
                          ["send", 1, 12]],
        scripts=[["all", 5, "fatal"], ["all", 7, 2]]),
+  # the cooperative thread closes the connection while the sender thread is
+  # dealing with a fatal error on it
+  dict(ncons=1, program=[["send", 0, 20], ["send", 0, 30], ["close", 0]],
+       scripts=[["all", 5, "fatal"]]),
+  dict(ncons=2, program=[["send", 0, 20], ["send", 1, 30], ["send", 0, 9], ["close", 0],
+                         ["send", 1, 12]],
+       scripts=[["all", 5, "fatal:EPIPE"], ["all", 0, 7]]),
   dict(ncons=1, program=[["send", 0, 5000], ["send", 0, 30], ["drain", 0],
                          ["send", 0, 9]],
        scripts=[["all", 100, "eagain_blocked", 4096, 1]]),
@@ -539,6 +561,16 @@ def run_iow (case, rep):
             rep.count("iow_fast_sends"); wk.send_fast(data)
           else:
             wk.send(data)
+        elif wk.closed and not closed_by_prog[wi]:
+          # a client that goes on sending on a worker that a fatal error has
+          # closed (its socket may still be open until the loop gets round to
+          # it): nothing of it reaches the socket
+          rep.count("iow_sends_on_a_closed_worker")
+          try:
+            if k == "fast": wk.send_fast(data)
+            else: wk.send(data)
+          except Exception:
+            pass
       elif k == "run":
         w.run()
       elif k == "drain":
@@ -690,10 +722,11 @@ def gen_iow_random (rng, n):
       for _ in range(rng.randrange(0, 9)):
         r = rng.random()
         if r < 0.30: sc.append("all")
-        elif r < 0.62: sc.append(rng.choice([1, 3, 7, 100, 2500, 8191, 8192, 15000]))
+        elif r < 0.62: sc.append(rng.choice([1, 3, 7, 100, 2500, 8191, 8192, 15000, 0, 0]))
         elif r < 0.80: sc.append("eagain")
         elif r < 0.93: sc.append("eagain_blocked")
-        else: sc.append("fatal")
+        else: sc.append(rng.choice(["fatal", "fatal", "fatal:EPIPE", "fatal:ETIMEDOUT",
+                                    "fatal:EHOSTUNREACH", "fatal:ENOTCONN"]))
       scripts.append(sc)
     case = dict(part="iow", nworkers=nw, program=prog, scripts=scripts)
     if rng.random() < 0.3:
